@@ -13,7 +13,7 @@
    Marshal/Unmarshal, MarshalIndent, Encoder/Decoder and streams), not modelled. *)
 From Coq Require Import NArith ZArith List Bool Arith Lia String.
 From GJ Require Import Base.Bytes Base.Word64 Gen.Tables Spec.Json Model.Int Model.StrEnc Model.StrDec Model.Enc Model.TreeRead
-  Proofs.WordP Proofs.IntEncP Proofs.IntDecP Proofs.IntScanP Proofs.StrBodyP Proofs.StrDecP Proofs.EncP Proofs.ParseP Proofs.LeafP Proofs.TreeReadP.
+  Proofs.WordP Proofs.IntEncP Proofs.IntDecP Proofs.IntScanP Proofs.StrBodyP Proofs.StrDecP Proofs.EncP Proofs.ParseP Proofs.LeafP Proofs.TreeReadP Model.Decode Model.EncTyped Proofs.RoundTripP.
 From GJ Require Properties.C17.
 Import ListNotations.
 Open Scope list_scope.
@@ -78,6 +78,31 @@ Theorem C04_string_round_trip : forall html s, ok s ->
   unmarshal_string (append_string_v html false s) = StrRes false (Some s).
 Proof. intros html s Hs. exact (C17.C17_string_roundtrip html false s Hs). Qed.
 Print Assumptions C04_string_round_trip.
+
+(* (4) typed: for every type of the modelled fragment (bool, integers of every width, strings, pointers, slices, arrays,
+   maps with string keys, structs; Model/EncTyped.v and Model/Decode.v, both run beside the implementation) and every
+   round-trippable value of it -- integers in range, strings that UTF-8 normalisation leaves alone, no pointer to a nil
+   nilable, map members in key order, interface{} nil -- decoding what the encoder writes into a fresh value gives
+   the value back *)
+Theorem C04_typed_round_trip : forall t v, rt t v = true ->
+  forall f, (vn v <= f)%nat -> dec f t (encj t v) (zero t) = DOk v.
+Proof. exact round_trip. Qed.
+Print Assumptions C04_typed_round_trip.
+
+(* ... and through the text: what Marshal writes for the value is one RFC 8259 text, the recogniser and the tree
+   reader get from it the tree the encoder wrote, and decoding that tree into a fresh value gives the value *)
+Theorem C04_unmarshal_of_marshal_is_the_value : forall t v, rt t v = true ->
+  exists d, match parse_json (marshal_typed t v) with Some (ts, _) => read_tree ts | None => None end = Some d /\
+            forall f, (vn v <= f)%nat -> dec f t d (zero t) = DOk v.
+Proof. exact text_round_trip. Qed.
+Print Assumptions C04_unmarshal_of_marshal_is_the_value.
+
+Example C04_typed_example :
+  let t := TStruct [([97], TPtr (TSlice (TInt 8))); ([98], TMap TString); ([99], TArr 2 (TUint 16)); ([100], TPtr TBool)] in
+  let v := VStruct [VPtr (VSlice [VInt (-128); VInt 127]); VMap [([107], VStr [34; 60]); ([108], VStr [])]; VArr [VInt 0; VInt 65535]; VNil] in
+  rt t v = true /\ marshal_typed t v = str ("{""a"":[-128,127],""b"":{""k"":""\""\u003c"",""l"":""""},""c"":[0,65535],""d"":null}")%string /\
+  dec 10 t (encj t v) (zero t) = DOk v.
+Proof. vm_compute. repeat split; reflexivity. Qed.
 
 (* not vacuous: a struct with an omitted member, an array, a string with an escape, a negative number *)
 Example C04_example :
